@@ -2,7 +2,7 @@ import Cuke.Driver.EvCodec
 import Cuke.Model.Normalize
 import Cuke.Model.Contract
 import Cuke.Model.Monitors
-import Cuke.Props.C11
+import Cuke.Lemmas.NormalizeRun
 /-! `norm.run <events>`: per-call outputs of the Normalize model, `!panic` where the code panics -/
 namespace Cuke.Driver
 open Cuke Cuke.Wire
